@@ -15,7 +15,9 @@ def run(ctx):
     else:
         scen = ctx.gen("Gen_C07", "Gen_C07", timeout=900)
         if ctx.quick:            # a seeded random sample (a fixed stride aliases with the enumeration order of the factors)
-            scen = sorted(ctx.rng.sample(scen, min(len(scen), 180)), key=lambda s: json.dumps(s, sort_keys=True))
+            long = [s for s in scen if s["cfg"]["N"] > 100]          # the long schedule-only run is always kept
+            rest = [s for s in scen if s["cfg"]["N"] <= 100]
+            scen = long + sorted(ctx.rng.sample(rest, min(len(rest), 180)), key=lambda s: json.dumps(s, sort_keys=True))
     traces = ctx.drive("c07", scen, timeout=3000, shards=12)
     ctx.validate("Trace_C07", traces, timeout=3000)
     ctx.rule = RULE
